@@ -93,6 +93,41 @@ def run(ctx):
             res.violation(f"a query raised {type(e).__name__}: {e}", case, clause="queries")
             res.case()
             return
+        if res.evaluations % 4 == 2:
+            # comments holding characters some line-splitting routines cut at, followed by statement-like text (a commented-out old
+            # setting): a comment ends at the line feed only, the declarations are those of the plain text - string and file input
+            odd = ["\x0c", "\x0b", "\x1c", "\x1d", "\x1e", "\x85", "\u2028", "\u2029"]
+            tails = ["Define dm 0.472e12", "Alias MyK*0 K_0*0", "yesPhotos", "noPhotos", "JetSetPar PARJ(21)=0.36", "ChargeConj a b", "Particle B0 5.2 0.1", "LSFLAT rho0"]
+            lines_ = []
+            inside_ = False
+            for ln in text.split("\n"):
+                lines_.append(ln)
+                if ln.startswith("Decay "):
+                    inside_ = True
+                elif ln.startswith("Enddecay"):
+                    inside_ = False
+                if not inside_ and ln and rng.random() < 0.4:
+                    lines_.append("# was:" + rng.choice(odd) + rng.choice(tails))
+            t_odd = "\n".join(lines_)
+            try:
+                if res.evaluations % 8 == 2:
+                    q_odd = DecFileParser.from_string(t_odd)
+                else:
+                    import tempfile
+
+                    with tempfile.TemporaryDirectory(prefix="verif_c07_") as td_:
+                        with open(os.path.join(td_, "odd.dec"), "w", encoding="utf-8", newline="") as f_:
+                            f_.write(t_odd)
+                        q_odd = DecFileParser(os.path.join(td_, "odd.dec"))
+                q_odd.parse()
+                via_odd = impl_queries(q_odd)
+            except Exception as e:
+                via_odd = f"{type(e).__name__}: {str(e)[:120]}"
+            res.count("odd_comment_texts")
+            if canon_json(via_odd) != canon_json(impl):
+                bad_ = [k2 for k2 in impl if not isinstance(via_odd, dict) or canon_json(via_odd.get(k2)) != canon_json(impl[k2])]
+                res.violation("text inside a comment (after an unusual character) is reported as a declaration", dict(case, text=t_odd), impl=bad_[:4] or via_odd,
+                              clause=(bad_[0] if bad_ else "queries"))
         if res.evaluations % 3 == 0:
             def again(text=text):
                 q = DecFileParser.from_string(text)
